@@ -51,6 +51,8 @@ func (f Frame) times() int {
 // of stream credit right after the HEADERS that open the stream, i.e. before the
 // relay has forwarded anything on it toward the client, and nothing per stream later).
 //
+// Mode settings: never any WINDOW_UPDATE either; once the peer's whole script has reached
+// the relay the receiver raises SETTINGS_INITIAL_WINDOW_SIZE to 1 MiB and that is all.
 // Mode none: never any WINDOW_UPDATE; the announced window (65 535) covers all a peer
 // sends. Rep: the initial SETTINGS frame names INITIAL_WINDOW_SIZE twice, {First, Init};
 // the last value is the one in force (RFC 7540 6.5.3), so the receiver acts on Init.
@@ -76,16 +78,28 @@ type Case struct {
 	// initial window is the default, see earlyAck) may grow its encoder's table up to it.
 	CTable uint32 `json:"ctable,omitempty"`
 	STable uint32 `json:"stable,omitempty"`
-	Procs  int    `json:"procs"` // stream-processor configuration, see h2kit.Factories
+	Procs  int    `json:"procs"`           // stream-processor configuration, see h2kit.Factories
+	Debug  bool   `json:"debug,omitempty"` // Config.EnableDebugLogs
 }
 
 var (
-	namePool  = []string{"x-a", "x-b", "x-c", "accept", "cookie", "user-agent", "content-type", "x-trail", "grpc-status", "grpc-message", "etag", "x-long-header-name-that-is-not-in-any-table"}
+	namePool  = []string{"x-a", "x-b", "x-c", "accept", "cookie", "authorization", "set-cookie", "user-agent", "content-type", "x-trail", "grpc-status", "grpc-message", "etag", "x-long-header-name-that-is-not-in-any-table"}
 	valuePool = []string{"", "1", "2", "0", "abc", "application/grpc", "gzip, deflate", "a=b; c=d", "/a", "/index.html", "OK"}
 	pathPool  = []string{"/", "/a", "/b", "/index.html", "/svc/Method"}
 )
 
 func genField(t *rapid.T, big bool) h2kit.Field {
+	f := genPlainField(t, big)
+	// credentials and the like travel as never-indexed literals
+	if f.N == "cookie" || f.N == "authorization" || f.N == "set-cookie" {
+		f.S = rapid.IntRange(0, 3).Draw(t, "sensitive_named") > 0
+	} else {
+		f.S = rapid.IntRange(0, 9).Draw(t, "sensitive") == 0
+	}
+	return f
+}
+
+func genPlainField(t *rapid.T, big bool) h2kit.Field {
 	n := rapid.SampledFrom(namePool).Draw(t, "name")
 	switch rapid.IntRange(0, 9).Draw(t, "vkind") {
 	case 0, 1, 2, 3, 4:
@@ -329,6 +343,9 @@ func genWin(t *rapid.T, label string) Win {
 		w.Step = rapid.SampledFrom([]int{1, 7, 100, 1000, 16384}).Draw(t, label+"_step")
 	}
 	switch rapid.IntRange(0, 7).Draw(t, label+"_special") {
+	case 2:
+		// room is made by raising SETTINGS_INITIAL_WINDOW_SIZE at the end, by nothing else
+		w = Win{Init: rapid.SampledFrom([]int{0, 1, 100, 1000}).Draw(t, label+"_settings_init"), Mode: "settings"}
 	case 0:
 		// no credit is ever returned: the last of two announced values must be what the
 		// relay works with
@@ -371,6 +388,7 @@ func genCase(t *rapid.T) Case {
 		CWin:   genClientWin(t),
 		SWin:   genWin(t, "swin"),
 		Procs:  rapid.IntRange(0, 4).Draw(t, "procs"),
+		Debug:  rapid.IntRange(0, 2).Draw(t, "debuglogs") == 0,
 		CMax:   rapid.SampledFrom([]uint32{0, 0, 16384, 32768, 1 << 20}).Draw(t, "cmax"),
 		SMax:   rapid.SampledFrom([]uint32{0, 0, 16384, 32768, 1 << 20}).Draw(t, "smax"),
 		CTable: rapid.SampledFrom([]uint32{0, 0, 4096, 8192, 65536}).Draw(t, "ctable"),
